@@ -65,6 +65,8 @@ CTX = {
         "method": (["class K {{", "  m(q) {{", "    const g = () => q + {t};", "    return g;", "  }}", "}}"], None),
         "UPPER-const": (["const LIMIT_A = {t};", "function f(q) {{", "  return q;", "}}"], "const"),
         "enum-member": (["enum Color {{", "  Red = {t},", "}}"], "const"),
+        "class-static-const": (["class K {{", "  static MAX_N = {t};", "}}"], "const"),
+        "class-field-lower": (["class K {{", "  limit = {t};", "}}"], None),
         "template-interpolation": (["function f(q) {{", "  return `n=${{q * {t}}} items`;", "}}"], None),
         "template-nested": (["function f(q) {{", "  return `a ${{q > {t} ? `big` : `small`}} b`;", "}}"], None),
         "object-value": (["function f(q) {{", "  return {{ size: {t} }};", "}}"], None),
@@ -133,7 +135,19 @@ def make_h(tier):
             lines += [l.format(t=text).replace("f(", f"f{i}(").replace(" K", f" K{i}").replace("LIMIT_", f"LIMIT{i}_")
                       for l in tmpl] + [""]
         content = "\n".join(lines) + "\n"
-        cfg = {"allowed_numbers": allowed, "max_small_integer": msi}
+        # the list may be given for the section or for the file's language only (then the section-wide list, which allows
+        # everything here, does not apply to it - not even when the language's own list is empty); another language's list never applies
+        place = ctx.pick("allowed_numbers_given_in", ("section", "own-language-section", "own-language-section-without-sentinel", "section-next-to-another-language")) \
+            if (nlit == 1 and (not quick or lits[0][3] in ("binop", "return"))) else "section"
+        everything = [424242] + [l[1] for l in lits]
+        if place == "own-language-section-without-sentinel":
+            allowed.remove(424242)         # with no literal allowed this is the empty list
+        if place.startswith("own-language-section"):
+            cfg = {"allowed_numbers": everything, "max_small_integer": msi, lang: {"allowed_numbers": allowed}}
+        elif place == "section-next-to-another-language":
+            cfg = {"allowed_numbers": allowed, "max_small_integer": msi, ("rust" if lang != "rust" else "python"): {"allowed_numbers": everything}}
+        else:
+            cfg = {"allowed_numbers": allowed, "max_small_integer": msi}
         key = ctx.pick("section_key", ("magic_numbers", "magic-numbers"))
         vs = MagicNumberRule().check(mkctx(lang, content, {key: cfg}, path="/proj/src/" + fname))
         ctx.require("only-magic-number-violations", all(v.rule_id == "magic-numbers.numeric-literal" for v in vs))
@@ -312,7 +326,7 @@ def obligations(tier):
                   "(%d py / %d ts / %d rs spellings), syntactic context (%d py / %d ts / %d rs), membership of each value in allowed_numbers, "
                   "section-key spelling, presence of booleans/strings/identifiers with digits"
                   % (len(SPELL["python"]), len(SPELL["typescript"]), len(SPELL["rust"]), len(CTX["python"]), len(CTX["typescript"]), len(CTX["rust"])),
-           timeout=400 if tier == "quick" else 2400, workers=14, must_cover=("flagged", "not-flagged"),
+           timeout=400 if tier == "quick" else 2400, workers=14, must_cover=("flagged", "not-flagged"), max_paths=400000 if tier == "quick" else 2000000,
            outside="float formatting in the message beyond numeric equality; content-based definition-file detection is K3's subject"),
         Ob(name="K3-definition-module-by-content", engine="pathex", harness=make_h_defmod(tier),
            functions=["MagicNumberRule._check_python", "definition_detector.is_definition_file/_has_definition_content_patterns/"
